@@ -571,6 +571,9 @@ class NDCubeBase(NDCubeABC, astropy.nddata.NDData, NDCubeSlicingMixin):
             # The integer axes are array axes of the cube, not of the extra coords' WCS.
             index_axes = _array_axes_to_extra_coords_axes(wcs, axes, self.data.ndim)
             wcs = wcs.wcs
+            if wcs is None:
+                # No extra coords, so no coordinate values.
+                return namedtuple("CoordValues", [])()
 
         world_axis_physical_types = wcs.world_axis_physical_types
 
